@@ -116,9 +116,16 @@ def run_case(case, cid, want_cert):
            "conv": [], "conv_complete": False, "dvars": [], "raised": "", "unchanged": True}
     cert = None
     try:
-        del _pubo._VERIF_CERTS[:]
         with warnings.catch_warnings():
             warnings.simplefilter("ignore")
+            if cid % 3 == 0:
+                # the conversion is made twice, the first result is scribbled into in between (results must be independent)
+                from . import pure
+                try:
+                    pure.scribble(getattr(model, "to_" + case["target"])(**kw))
+                except Exception:      # noqa  (the judged call reports what it raises)
+                    pass
+            del _pubo._VERIF_CERTS[:]
             D = getattr(model, "to_" + case["target"])(**kw)
         certs = list(_pubo._VERIF_CERTS)
         del _pubo._VERIF_CERTS[:]
